@@ -75,7 +75,11 @@ class Verdict:
 
     # -- end ---------------------------------------------------------------
     def finish(self):
-        os.makedirs(EVID, exist_ok=True)
+        evid = EVID
+        if os.environ.get('VERIF_REPO_SRC', '/repo/src') != '/repo/src':
+            # a run against a scratch copy (seeded change) never touches the evidence
+            evid = os.path.join(VERIF, 'evidence_scratch')
+        os.makedirs(evid, exist_ok=True)
         wall = time.time() - self.t0
         cov = dict(
             states=max(self.states, 0),
@@ -93,7 +97,7 @@ class Verdict:
                   level=self.level, coverage=cov,
                   assumptions=self.assumptions, wall_s=round(wall, 2),
                   violations=len(self.violations))
-        path = os.path.join(EVID, self.pid + '.json')
+        path = os.path.join(evid, self.pid + '.json')
         with open(path, 'w') as f:
             json.dump(ev, f, indent=1, default=str)
         for fid, cases in sorted(self.known.items()):
@@ -101,7 +105,7 @@ class Verdict:
             print(f"KNOWN-FINDING: property={self.pid} {fid} {e.get('what', '')} "
                   f"({len(cases)} case(s), first: {json.dumps(cases[0]['case'], default=str)[:300]})")
         if self.violations:
-            rdir = os.path.join(VERIF, 'replays')
+            rdir = os.path.join(VERIF, 'replays' if evid == EVID else 'replays_scratch')
             os.makedirs(rdir, exist_ok=True)
             seen = set()
             for i, v in enumerate(self.violations[:20]):
